@@ -368,12 +368,15 @@ def oracles(ctx: Ctx) -> None:
         di = [c for c in rng.sample(GOOD_CLS, rng.randrange(0, 3)) if c not in en]
         ig = rng.sample(GOOD_CLS, rng.randrange(0, 3))
         load = rng.sample(["m1", "m2.x"], rng.randrange(0, 3))
+        if load and rng.random() < 0.25:
+            load.append(load[0])                       # the same value twice: lists are combined, not sets
         flags = {k: rng.random() < 0.3 for k in ("quiet",)}
         allsw = rng.choice([None, None, "enable_all", "disable_all"])
-        pv = rng.choice([None, "3.9", "3.11"])
+        pv = rng.choice([None, "3.9", "3.11", "3.10", "3.7"])
         fm = rng.choice([None, "text", "github"])
         sb = rng.choice([None, "filename", "error"])
-        ma = rng.choice([[], ["--strict"], ["--a", "--b"], rng.sample(MYPY_ARGS, rng.randrange(1, 4))])
+        ma = rng.choice([[], ["--strict"], ["--a", "--b"], rng.sample(MYPY_ARGS, rng.randrange(1, 4)),
+                         ["--exclude", "src/gen", "--exclude", "src/vendor"], ["-v", "-v"], [rng.choice(MYPY_ARGS)] * 2 + ["x"]])
         argv = []
         for c in ig:
             argv += ["--ignore", c]
